@@ -8,6 +8,8 @@ import (
 	"math"
 	"math/big"
 	"os"
+	"sort"
+	"strconv"
 	"strings"
 	"testing"
 )
@@ -322,5 +324,365 @@ func TestVerifBounded(t *testing.T) {
 }
 
 func verifBoundedOther(t *testing.T, which, tier string) {
-	t.Skip("unknown bounded check " + which)
+	switch which {
+	case "dist":
+		verifDist(t, tier)
+	default:
+		t.Skip("unknown bounded check " + which)
+	}
+}
+
+// ---------------------------------------------------------------------------
+// C12: distribution functions, t-tests and descriptive statistics
+
+type verifTS struct{ n, mean, v float64 }
+
+func (s verifTS) Weight() float64   { return s.n }
+func (s verifTS) Mean() float64     { return s.mean }
+func (s verifTS) Variance() float64 { return s.v }
+
+// verifSimpson integrates f over [a,b] with 2*m panels.
+func verifSimpson(f func(float64) float64, a, b float64, m int) float64 {
+	h := (b - a) / float64(2*m)
+	s := f(a) + f(b)
+	for i := 1; i < 2*m; i++ {
+		w := 2.0
+		if i%2 == 1 {
+			w = 4
+		}
+		s += w * f(a+float64(i)*h)
+	}
+	return s * h / 3
+}
+
+func verifDist(t *testing.T, tier string) {
+	n, fails := 0, 0
+	bad := func(f string, args ...any) {
+		fails++
+		if fails <= 15 {
+			t.Errorf("REPLAY-FAIL "+f, args...)
+		}
+	}
+	// a panic inside the numerical code (e.g. a continued fraction that does not converge) is a failure
+	try := func(what string, f func()) {
+		defer func() {
+			if r := recover(); r != nil {
+				bad("%s: panic: %v", what, r)
+			}
+		}()
+		f()
+	}
+	seed := uint64(5)
+	if s := os.Getenv("VERIF_SEED"); s != "" {
+		if v, err := strconv.ParseUint(s, 10, 64); err == nil {
+			seed = v
+		}
+	}
+	rnd := func() float64 {
+		seed = seed*6364136223846793005 + 1442695040888963407
+		return float64(seed>>11) / float64(1<<53)
+	}
+	dofs := []float64{1, 1.5, 2, 3, 5, 7.25, 10, 30, 100, 342, 343, 400.5, 1000, 3000.5, 9000, 20000, 50000, 1e5}
+	step := 0.01
+	if tier == "thorough" {
+		step = 0.001
+		for i := 0; i < 60; i++ {
+			dofs = append(dofs, math.Exp(rnd()*math.Log(1e5)))
+		}
+	}
+	// 1. Student-t: range, monotone, symmetry, convergence everywhere, agreement with the density
+	for _, v := range dofs {
+		d := TDist{v}
+		prev := 0.0
+		first := true
+		for x := -8.0; x <= 8.0+1e-9; x += step {
+			x := x
+			try(fmt.Sprintf("TDist{%v}.CDF(%v)", v, x), func() {
+				n++
+				p := d.CDF(x)
+				if !(p >= 0 && p <= 1) {
+					bad("TDist{%v}.CDF(%v) = %v outside [0,1]", v, x, p)
+				}
+				if !first && p < prev-1e-13 {
+					bad("TDist{%v}.CDF not monotone: F(%v) = %v after %v", v, x, p, prev)
+				}
+				if q := d.CDF(-x); math.Abs(p+q-1) > 1e-12 {
+					bad("TDist{%v}: F(%v)+F(%v) = %v, want 1", v, x, -x, p+q)
+				}
+				prev, first = p, false
+			})
+		}
+		for _, iv := range [][2]float64{{-1, 0.5}, {0, 2}, {-3, -1}, {1.5, 4}} {
+			iv := iv
+			try(fmt.Sprintf("TDist{%v} density on %v", v, iv), func() {
+				n++
+				integ := verifSimpson(d.PDF, iv[0], iv[1], 400)
+				want := d.CDF(iv[1]) - d.CDF(iv[0])
+				if !(math.Abs(integ-want) <= 1e-8) {
+					bad("TDist{%v}: integral of the density over [%v,%v] is %v, the distribution function gives %v", v, iv[0], iv[1], integ, want)
+				}
+			})
+		}
+		// generic inverse inverts the distribution function
+		inv := InvCDF(d)
+		for _, y := range []float64{0.001, 0.025, 0.2, 0.5, 0.7, 0.975, 0.999} {
+			y := y
+			try(fmt.Sprintf("InvCDF(TDist{%v})(%v)", v, y), func() {
+				n++
+				x := inv(y)
+				if got := d.CDF(x); !(math.Abs(got-y) <= 1e-9) {
+					bad("InvCDF(TDist{%v})(%v) = %v, but CDF there is %v", v, y, x, got)
+				}
+			})
+		}
+	}
+	// 2. incomplete beta symmetry on the parameters the t distribution produces
+	for _, v := range dofs {
+		for _, tt := range []float64{0.01, 0.3, 1, 1.74, 2, 2.3, 3.5, 6} {
+			v, tt := v, tt
+			try(fmt.Sprintf("mathBetaInc for dof %v t %v", v, tt), func() {
+				n++
+				x := v / (v + tt*tt)
+				a, b := v/2, 0.5
+				l, r := mathBetaInc(x, a, b), 1-mathBetaInc(1-x, b, a)
+				if !(math.Abs(l-r) <= 1e-10) {
+					bad("I_x(a,b) = %v but 1 - I_(1-x)(b,a) = %v for x=%v a=%v b=%v", l, r, x, a, b)
+				}
+			})
+		}
+	}
+	// 3. normal distribution
+	for _, nd := range []NormalDist{{0, 1}, {3, 0.5}, {-10, 25}} {
+		prev := -1.0
+		for z := -8.0; z <= 8.0; z += step {
+			n++
+			x := nd.Mu + z*nd.Sigma
+			p := nd.CDF(x)
+			if !(p >= 0 && p <= 1) || p < prev-1e-15 {
+				bad("NormalDist%v.CDF(%v) = %v (previous %v)", nd, x, p, prev)
+			}
+			if q := nd.CDF(nd.Mu - z*nd.Sigma); math.Abs(p+q-1) > 1e-12 {
+				bad("NormalDist%v: F(mu+%vs)+F(mu-%vs) = %v", nd, z, z, p+q)
+			}
+			prev = p
+		}
+		n++
+		if integ, want := verifSimpson(nd.PDF, nd.Mu-1.3*nd.Sigma, nd.Mu+0.7*nd.Sigma, 400), nd.CDF(nd.Mu+0.7*nd.Sigma)-nd.CDF(nd.Mu-1.3*nd.Sigma); math.Abs(integ-want) > 1e-9 {
+			bad("NormalDist%v: density integrates to %v, distribution function gives %v", nd, integ, want)
+		}
+		for _, y := range []float64{1e-6, 0.001, 0.025, 0.3, 0.5, 0.9, 0.999, 1 - 1e-6} {
+			n++
+			x := nd.InvCDF(y)
+			if got := nd.CDF(x); math.Abs(got-y) > 1e-9*math.Max(1, 0) && math.Abs(got-y) > 1e-7*y {
+				bad("NormalDist%v.InvCDF(%v) = %v, CDF there is %v", nd, y, x, got)
+			}
+		}
+	}
+	// 4. t-tests against the textbook formulas, for unequal sizes
+	upper := func(dof, tt float64) float64 { return 1 - TDist{dof}.CDF(tt) }
+	cases := 2000
+	if tier == "thorough" {
+		cases = 40000
+	}
+	for i := 0; i < cases; i++ {
+		n1, n2 := float64(2+int(rnd()*20)), float64(2+int(rnd()*20))
+		a := verifTS{n1, rnd()*100 - 50, rnd() * 30}
+		b := verifTS{n2, rnd()*100 - 50, rnd() * 30}
+		for _, alt := range []LocationHypothesis{LocationLess, LocationDiffers, LocationGreater} {
+			n++
+			r, err := TwoSampleWelchTTest(a, b, alt)
+			se2 := a.v/n1 + b.v/n2
+			wt := (a.mean - b.mean) / math.Sqrt(se2)
+			wdof := se2 * se2 / ((a.v/n1)*(a.v/n1)/(n1-1) + (b.v/n2)*(b.v/n2)/(n2-1))
+			var wp float64
+			switch alt {
+			case LocationLess:
+				wp = 1 - upper(wdof, wt)
+			case LocationGreater:
+				wp = upper(wdof, wt)
+			default:
+				wp = 2 * upper(wdof, math.Abs(wt))
+			}
+			if err != nil || math.Abs(r.T-wt) > 1e-9*math.Abs(wt) || math.Abs(r.DoF-wdof) > 1e-9*wdof || math.Abs(r.P-wp) > 1e-9 || r.N1 != int(n1) || r.N2 != int(n2) {
+				bad("Welch(%v, %v, %v) = %+v, %v; textbook T=%v DoF=%v P=%v", a, b, alt, r, err, wt, wdof, wp)
+			}
+			n++
+			r, err = TwoSampleTTest(a, b, alt)
+			pv := ((n1-1)*a.v + (n2-1)*b.v) / (n1 + n2 - 2)
+			pt := (a.mean - b.mean) / math.Sqrt(pv*(1/n1+1/n2))
+			switch alt {
+			case LocationLess:
+				wp = 1 - upper(n1+n2-2, pt)
+			case LocationGreater:
+				wp = upper(n1+n2-2, pt)
+			default:
+				wp = 2 * upper(n1+n2-2, math.Abs(pt))
+			}
+			if err != nil || math.Abs(r.T-pt) > 1e-9*math.Abs(pt) || r.DoF != n1+n2-2 || math.Abs(r.P-wp) > 1e-9 {
+				bad("pooled t-test(%v, %v, %v) = %+v, %v; textbook T=%v DoF=%v P=%v", a, b, alt, r, err, pt, n1+n2-2, wp)
+			}
+			n++
+			r, err = OneSampleTTest(a, 1.5, alt)
+			ot := (a.mean - 1.5) / math.Sqrt(a.v/n1)
+			switch alt {
+			case LocationLess:
+				wp = 1 - upper(n1-1, ot)
+			case LocationGreater:
+				wp = upper(n1-1, ot)
+			default:
+				wp = 2 * upper(n1-1, math.Abs(ot))
+			}
+			if err != nil || math.Abs(r.T-ot) > 1e-9*math.Abs(ot) || r.DoF != n1-1 || math.Abs(r.P-wp) > 1e-9 {
+				bad("one-sample t-test(%v, 1.5, %v) = %+v, %v; textbook T=%v P=%v", a, alt, r, err, ot, wp)
+			}
+		}
+		// paired test on real vectors
+		m := 2 + int(rnd()*12)
+		xs, ys := make([]float64, m), make([]float64, m)
+		for k := range xs {
+			xs[k], ys[k] = rnd()*10, rnd()*10
+		}
+		n++
+		r, err := PairedTTest(xs, ys, 0.25, LocationDiffers)
+		var sum, ss float64
+		for k := range xs {
+			sum += xs[k] - ys[k]
+		}
+		md := sum / float64(m)
+		for k := range xs {
+			ss += (xs[k] - ys[k] - md) * (xs[k] - ys[k] - md)
+		}
+		sd := math.Sqrt(ss / float64(m-1))
+		wt := (md - 0.25) / (sd / math.Sqrt(float64(m)))
+		if err != nil || math.Abs(r.T-wt) > 1e-9*math.Abs(wt) || r.DoF != float64(m-1) || math.Abs(r.P-2*upper(float64(m-1), math.Abs(wt))) > 1e-9 {
+			bad("paired t-test(%v, %v) = %+v, %v; textbook T=%v", xs, ys, r, err, wt)
+		}
+	}
+	// errors
+	n += 6
+	if _, err := TwoSampleWelchTTest(verifTS{1, 0, 1}, verifTS{5, 0, 1}, LocationDiffers); err != ErrSampleSize {
+		bad("Welch with a one-element sample: err = %v", err)
+	}
+	if _, err := TwoSampleWelchTTest(verifTS{4, 1, 0}, verifTS{5, 2, 0}, LocationDiffers); err != ErrZeroVariance {
+		bad("Welch with zero variances: err = %v", err)
+	}
+	if _, err := TwoSampleTTest(verifTS{0, 0, 1}, verifTS{5, 0, 1}, LocationDiffers); err != ErrSampleSize {
+		bad("pooled with an empty sample: err = %v", err)
+	}
+	if _, err := OneSampleTTest(verifTS{5, 0, 0}, 0, LocationDiffers); err != ErrZeroVariance {
+		bad("one-sample with zero variance: err = %v", err)
+	}
+	if _, err := PairedTTest([]float64{1, 2}, []float64{1}, 0, LocationDiffers); err != ErrMismatchedSamples {
+		bad("paired with different lengths: err = %v", err)
+	}
+	if _, err := PairedTTest([]float64{1}, []float64{2}, 0, LocationDiffers); err != ErrSampleSize {
+		bad("paired with one pair: err = %v", err)
+	}
+	// 5. descriptive statistics against exact rational arithmetic
+	samples := 2000
+	if tier == "thorough" {
+		samples = 40000
+	}
+	for i := 0; i < samples; i++ {
+		m := 1 + int(rnd()*rnd()*300)
+		xs := make([]float64, m)
+		scale := math.Pow(10, math.Floor(rnd()*12)-6)
+		off := 0.0
+		if rnd() < 0.3 {
+			off = scale * 1e3 // large common offset: cancellation stress
+		}
+		for k := range xs {
+			xs[k] = off + scale*(rnd()*2-0.5)
+			if rnd() < 0.1 && k > 0 {
+				xs[k] = xs[k-1] // multiplicities
+			}
+		}
+		maxAbs := 0.0
+		lo, hi := xs[0], xs[0]
+		sumR := new(big.Rat)
+		for _, x := range xs {
+			sumR.Add(sumR, new(big.Rat).SetFloat64(x))
+			maxAbs = math.Max(maxAbs, math.Abs(x))
+			lo, hi = math.Min(lo, x), math.Max(hi, x)
+		}
+		meanR := new(big.Rat).Quo(sumR, big.NewRat(int64(m), 1))
+		meanF, _ := meanR.Float64()
+		ulp := maxAbs * 0x1p-52
+		n++
+		if got := Mean(xs); !(math.Abs(got-meanF) <= 8*ulp) {
+			bad("Mean of %d values of scale %g = %v, exact %v (off by %.1f ulps of the data)", m, scale, got, meanF, math.Abs(got-meanF)/ulp)
+		}
+		if m > 1 {
+			ssR := new(big.Rat)
+			for _, x := range xs {
+				d := new(big.Rat).Sub(new(big.Rat).SetFloat64(x), meanR)
+				ssR.Add(ssR, d.Mul(d, d))
+			}
+			varR := ssR.Quo(ssR, big.NewRat(int64(m-1), 1))
+			varF, _ := varR.Float64()
+			n++
+			// the spread, not the offset, sets the scale of the variance; allow the offset's rounding too
+			tol := 1e-9*varF + 64*ulp*ulp*float64(m)
+			if got := Variance(xs); !(math.Abs(got-varF) <= tol) {
+				bad("Variance of %d values (scale %g offset %g) = %v, exact %v", m, scale, off, got, varF)
+			}
+		}
+		n++
+		if gl, gh := Bounds(xs); gl != lo || gh != hi {
+			bad("Bounds = %v, %v want %v, %v", gl, gh, lo, hi)
+		}
+		pos := true
+		logs := 0.0
+		for _, x := range xs {
+			if x <= 0 {
+				pos = false
+			}
+			logs += math.Log(x)
+		}
+		if pos {
+			n++
+			want := math.Exp(logs / float64(m))
+			if got := GeoMean(xs); !(math.Abs(got-want) <= 1e-9*want) {
+				bad("GeoMean of %d positive values = %v, want %v", m, got, want)
+			}
+		}
+		// R8 percentiles: exact interpolation, monotone in p, inside [min, max], same for unsorted input
+		sorted := append([]float64(nil), xs...)
+		sort.Float64s(sorted)
+		sa := Sample{Xs: xs}
+		prev := math.Inf(-1)
+		for _, p := range []float64{0, 0.01, 0.1, 0.25, 0.333, 0.5, 0.6, 0.75, 0.9, 0.99, 1} {
+			n++
+			got := sa.Percentile(p)
+			if !(got >= lo && got <= hi) {
+				bad("Percentile(%v) of %d values = %v outside [%v, %v]", p, m, got, lo, hi)
+			}
+			if got < prev {
+				bad("Percentile not monotone at p=%v: %v after %v", p, got, prev)
+			}
+			prev = got
+			// exact R8: h = (m + 1/3) p + 1/3
+			if p > 0 && p < 1 {
+				h := new(big.Rat).Add(new(big.Rat).Mul(new(big.Rat).Add(big.NewRat(int64(m), 1), big.NewRat(1, 3)), new(big.Rat).SetFloat64(p)), big.NewRat(1, 3))
+				hf, _ := h.Float64()
+				k := int(math.Floor(hf))
+				var want float64
+				switch {
+				case k <= 0:
+					want = sorted[0]
+				case k >= m:
+					want = sorted[m-1]
+				default:
+					fr := new(big.Rat).Sub(h, big.NewRat(int64(k), 1))
+					d := new(big.Rat).Sub(new(big.Rat).SetFloat64(sorted[k]), new(big.Rat).SetFloat64(sorted[k-1]))
+					w := new(big.Rat).Add(new(big.Rat).SetFloat64(sorted[k-1]), d.Mul(d, fr))
+					want, _ = w.Float64()
+				}
+				if !(math.Abs(got-want) <= 1e-9*(hi-lo)+8*ulp) {
+					bad("Percentile(%v) of %d values = %v, exact R8 value %v", p, m, got, want)
+				}
+			}
+		}
+	}
+	fmt.Printf("BOUNDED-RESULT {\"cases\": %d, \"failures\": %d, \"bound\": \"t distribution for %d degrees of freedom in [1,1e5] on a grid of step %v over [-8,8] (range, monotone, symmetry, no panic, density integral, generic inverse); beta symmetry; 3 normal distributions; %d random t-test inputs with unequal sizes x 3 alternatives against the textbook formulas; %d random samples of 1-300 values, scales 1e-6..1e5, offsets and multiplicities, against exact rational evaluation\", \"exhaustive\": false}\n", n, fails, len(dofs), step, cases, samples)
 }
